@@ -4,6 +4,8 @@ import (
 	"context"
 	"fmt"
 	"github.com/attestantio/dirk/services/checker"
+	pb "github.com/wealdtech/eth2-signer-api/pb/v1"
+	e2wtypes "github.com/wealdtech/go-eth2-wallet-types/v2"
 	"os"
 	"path/filepath"
 	"runtime"
@@ -279,6 +281,47 @@ func cmdLive(args []string) int {
 		}
 		a.Close(ctx)
 		b.Close(ctx)
+	}
+	// an account created after start-up (registered with the account cache as an account generation does) and
+	// addressed by its public key: its advancing duties are signed, alone and inside a batch
+	if !twinStuck {
+		inst, err := run.newInstance(admin)
+		if err != nil {
+			return 2
+		}
+		if w, err := fx.Fetcher.FetchWallet(ctx, fx.Accounts[0].Wallet); err == nil {
+			if l, ok := w.(e2wtypes.WalletLocker); ok {
+				_ = l.Unlock(ctx, nil)
+			}
+			if a, err := w.(e2wtypes.WalletAccountCreator).CreateAccount(ctx, "Created later", []byte("pass")); err == nil {
+				_ = fx.Fetcher.AddAccount(ctx, w, a)
+				hctx := ctxWithClient(ctx, "client1", "10.0.0.1")
+				key := a.PublicKey().Marshal()
+				att := func(s, t uint64) *pb.SignBeaconAttestationRequest {
+					return &pb.SignBeaconAttestationRequest{Id: &pb.SignBeaconAttestationRequest_PublicKey{PublicKey: key}, Domain: mkDomain(domAttester, 0),
+						Data: &pb.AttestationData{Slot: t * 32, BeaconBlockRoot: fill32(1), Source: &pb.Checkpoint{Epoch: s, Root: fill32(0)}, Target: &pb.Checkpoint{Epoch: t, Root: fill32(1)}}}
+				}
+				r1, e1 := inst.Handler.SignBeaconAttestation(hctx, att(1, 2))
+				if e1 != nil || r1.GetState() != pb.ResponseState_SUCCEEDED {
+					monFail = append(monFail, fmt.Sprintf("account %s/Created later (created after start-up), addressed by public key: the advancing attestation 1->2 is not signed (%v %v)", fx.Accounts[0].Wallet, r1.GetState(), e1))
+				}
+				other := fx.Accounts[1]
+				r2, e2 := inst.Handler.SignBeaconAttestations(hctx, &pb.SignBeaconAttestationsRequest{Requests: []*pb.SignBeaconAttestationRequest{
+					{Id: &pb.SignBeaconAttestationRequest_Account{Account: other.Path()}, Domain: mkDomain(domAttester, 0),
+						Data: &pb.AttestationData{Slot: 96, BeaconBlockRoot: fill32(1), Source: &pb.Checkpoint{Epoch: 2, Root: fill32(0)}, Target: &pb.Checkpoint{Epoch: 3, Root: fill32(1)}}},
+					att(2, 3)}})
+				if e2 != nil || len(r2.GetResponses()) != 2 || r2.GetResponses()[0].GetState() != pb.ResponseState_SUCCEEDED || r2.GetResponses()[1].GetState() != pb.ResponseState_SUCCEEDED {
+					monFail = append(monFail, fmt.Sprintf("batch [%s by name 2->3, the account created after start-up by public key 2->3]: not every advancing duty is signed (%v %v)", other.Path(), r2.GetResponses(), e2))
+				}
+				r3, e3 := inst.Handler.SignBeaconProposal(hctx, &pb.SignBeaconProposalRequest{Id: &pb.SignBeaconProposalRequest_PublicKey{PublicKey: key}, Domain: mkDomain(domProposer, 0),
+					Data: &pb.BeaconBlockHeader{Slot: 7, ProposerIndex: 1, ParentRoot: fill32(0), StateRoot: fill32(1), BodyRoot: fill32(1)}})
+				if e3 != nil || r3.GetState() != pb.ResponseState_SUCCEEDED {
+					monFail = append(monFail, fmt.Sprintf("account created after start-up, addressed by public key: the advancing proposal at slot 7 is not signed (%v %v)", r3.GetState(), e3))
+				}
+				run.stats["created-later.requests"] = 4
+			}
+		}
+		inst.Close(ctx)
 	}
 	twinSteps := run.steps
 
